@@ -48,6 +48,12 @@ func newRecVCS(root string, tx bool, failAt int) *recVCS {
 	return &recVCS{inner: &localnonvcs.T{Root: root}, tx: tx, failAt: failAt, published: map[string][32]byte{}}
 }
 
+// reset prepares the back end object for the next run of a history that keeps ONE such object (a
+// long-lived endorse.Context keeps the version control it was first given).
+func (v *recVCS) reset(tx bool, failAt int) {
+	*v = recVCS{inner: v.inner, tx: tx, failAt: failAt, published: map[string][32]byte{}}
+}
+
 func (v *recVCS) rel(p string) string {
 	root := path.Clean(v.inner.Root)
 	p = path.Clean(p)
